@@ -89,9 +89,14 @@ func famC08(rn *Runner) {
 				impl = "E"
 			}
 			// the model's parser on the text, then its evaluator
-			spec := rn.M.Ask(fmt.Sprintf("(pq %d (p) %s 0 %s)", d.ID, env.Sx(), sxStr(text)))
+			pqCmd := fmt.Sprintf("(pq %d (p) %s 0 %s)", d.ID, env.Sx(), sxStr(text))
+			spec := rn.M.Ask(pqCmd)
 			if strings.HasPrefix(spec, "E") {
 				spec = "E"
+			}
+			if len(rn.CoqCases) < 400 && rn.St.Evaluations%11 == 0 {
+				// for the vm_compute cross-check of the extracted parser + evaluator
+				rn.CoqCases = append(rn.CoqCases, sxEvents(d.Events)+"\t"+pqCmd+"\t"+spec)
 			}
 			rn.Eval(family+"|"+text+"|"+fmt.Sprint(d.ID), nontrivial)
 			rn.Count("family:" + family)
@@ -195,7 +200,11 @@ func famC08(rn *Runner) {
 			// model parser reads back to this AST
 			for _, ab := range []string{"0", "1", "2"} {
 				fam := map[string]string{"0": "canonical-rendering", "1": "canonical-abbreviated", "2": "canonical-redundant-parentheses"}[ab]
-				if can := rn.M.Ask("(render " + ab + " " + SxExpr(e) + ")"); strings.HasPrefix(can, "S ") {
+				can := rn.M.Ask("(render " + ab + " " + SxExpr(e) + ")")
+				if len(rn.CoqCases) < 400 && i%9 == 0 {
+					rn.CoqCases = append(rn.CoqCases, "()\t(render "+ab+" "+SxExpr(e)+")\t"+can)
+				}
+				if strings.HasPrefix(can, "S ") {
 					text := decodeStr(can)
 					if ab == "2" {
 						text = respace(r, text) // the white-space theorem: any non-empty run of space/tab/CR/LF after each token
